@@ -127,6 +127,9 @@ def _client_view(w: World, scn: Dict[str, Any], obs: CS.Obs) -> Dict[str, Any]:
 def fam_client(w: World) -> None:
     scn = CS.draw_scenario(w.ch, cancel=False, max_tracers=2)
     c09.normalise_script(scn)
+    if scn['tracers'] and w.ch.flag(1, 6, 'tracer.raises_on_end'):
+        # a tracer that fails in on_request_end: whatever the clients do with it, they must do the same
+        scn['tracer_raises_on_end'] = w.ch.draw(scn['tracers'], 'tracer.which')
     w.scenario = scn
     w.nontrivial = True
     obs_s = CS.run_scenario(w, scn, False, suffix='S')
